@@ -1,14 +1,17 @@
 package stk
 
 import (
+	"bytes"
 	"context"
 	"fmt"
 	"strings"
 	"time"
 
 	"go.brendoncarroll.net/p2p/f/x509"
+	"go.brendoncarroll.net/p2p/p/p2pke"
 	"go.brendoncarroll.net/p2p/zsimrt"
 
+	"verifsim/sess"
 	"verifsim/simcore"
 	"verifsim/simnet"
 )
@@ -44,11 +47,20 @@ func RunC04(st *simcore.Stream, tier_, leg string, logOn bool, res *simcore.Resu
 
 	// packet-level adversary: sees every datagram, re-injects copies
 	var seen []*simnet.Pkt
+	// the protocol-speaking attacker (only where P2PKE messages are what the simulated
+	// network carries): it owns a transport address of its own and no key of any honest node
+	speaks := adversary && (strings.HasSuffix(spec, "p2pke/sim") || strings.HasSuffix(spec, "p2pke/mapudp/sim"))
+	var atkAddr simnet.Addr
+	var toAttacker []*simnet.Pkt
 	if adversary {
 		w.Net.OnTell = func(pk *simnet.Pkt) {
+			cp := *pk
+			cp.Data = append([]byte{}, pk.Data...)
+			if speaks && pk.Dst == atkAddr {
+				toAttacker = append(toAttacker, &cp)
+				return
+			}
 			if len(seen) < 200 {
-				cp := *pk
-				cp.Data = append([]byte{}, pk.Data...)
 				seen = append(seen, &cp)
 			}
 		}
@@ -71,6 +83,10 @@ func RunC04(st *simcore.Stream, tier_, leg string, logOn bool, res *simcore.Resu
 			from, sentAt = rec.From, rec.CallAt
 		}
 		if from < 0 {
+			if bytes.HasPrefix(m.Payload, []byte("ATTACKER-DATA")) {
+				// made by the attacker, who holds none of the honest keys and completed no handshake honestly
+				res.Violate(w.step(), "attacker-message-delivered", "node %d was handed a message made by the attacker, attributed to Src=%q: the sender proved no key in that connection's handshake", at, m.Src).With("stack", spec)
+			}
 			return // reported by the delivery oracle
 		}
 		res.Checks++
@@ -184,6 +200,61 @@ func RunC04(st *simcore.Stream, tier_, leg string, logOn bool, res *simcore.Resu
 				}
 			})
 		}
+		if speaks {
+			atkAddr = w.Net.NewNode().LocalAddr()
+			res.Cfg["protocolSpeakingAttacker"] = true
+		}
+		// spliced handshake: the identity claim (key, timestamp, signature) of an honest
+		// node's InitHello inside the attacker's own Noise handshake, then data without
+		// (or with a worthless) InitDone. Nothing the attacker sends may ever be delivered.
+		splice := func() {
+			var hello *simnet.Pkt
+			for _, pk := range seen {
+				if len(pk.Data) > 40 && p2pke.IsInitHello(pk.Data) && (hello == nil || st.Bool(1, 2)) {
+					hello = pk
+				}
+			}
+			if hello == nil {
+				return
+			}
+			obs := sess.NewAtk(false)
+			if obs.ReadInitHello(hello.Data) != nil || obs.PeerHello == nil {
+				return
+			}
+			ih := obs.PeerHello
+			victim := simnet.Addr{N: st.Intn(p.N)}
+			a := sess.NewAtk(true)
+			n0 := len(toAttacker)
+			w.Net.Inject(atkAddr, victim, a.InitHello(ih.KeyX509, ih.TimestampTai64N, ih.Sig, ih.Version))
+			res.Fault("adv-spliced-inithello")
+			for i := 0; i < 400 && len(toAttacker) == n0; i++ {
+				zsimrt.Yield("harness/adversary-wait")
+			}
+			if len(toAttacker) == n0 {
+				return
+			}
+			if a.ReadRespHello(toAttacker[len(toAttacker)-1].Data) != nil {
+				return
+			}
+			res.Fault("adv-got-resphello")
+			switch st.Intn(3) {
+			case 0:
+				// no InitDone at all
+			case 1:
+				w.Net.Inject(atkAddr, victim, a.InitDone(ih.Sig)) // the stolen InitHello signature
+				res.Fault("adv-initdone-stolen-signature")
+			case 2:
+				junk := make([]byte, 64)
+				st.Bytes(junk)
+				w.Net.Inject(atkAddr, victim, a.InitDone(junk))
+				res.Fault("adv-initdone-garbage-signature")
+			}
+			for i := 0; i < 1+st.Intn(3); i++ {
+				pt := []byte(fmt.Sprintf("ATTACKER-DATA-%04d-claims-to-be-an-honest-node", i))
+				w.Net.Inject(atkAddr, victim, a.Data(uint32(16+i), pt))
+				res.Fault("adv-data-under-spliced-handshake")
+			}
+		}
 		if adversary {
 			w.opBegin()
 			zsimrt.Go("adversary", func() {
@@ -193,6 +264,10 @@ func RunC04(st *simcore.Stream, tier_, leg string, logOn bool, res *simcore.Resu
 						zsimrt.Yield("harness/adversary-wait")
 					}
 					if len(seen) == 0 {
+						continue
+					}
+					if speaks && st.Bool(1, 4) {
+						splice()
 						continue
 					}
 					pk := seen[st.Intn(len(seen))]
